@@ -11,7 +11,7 @@
    information."
 
   The bound computer `compute` and the gap function `gap` are parameters.  About `compute` only
-  `ComputeOK` is assumed (it keeps `n`, the known flags and the known rows); about `gap` nothing, except
+  `ComputeOK` is assumed (on tables with exact known rows it keeps `n`, the known flags and the known rows); about `gap` nothing, except
   `0 ≤ gap` in the corollary "never positive".  Float rounding is outside the theorems.
 
   Abstract state (`Spec`): hidden game, its normalised copy, the set of revealed explorable coalitions, the
@@ -150,15 +150,15 @@ theorem reset_spec [Zero α] (hok : ComputeOK compute) {P : Params} (hP : P.WF) 
   have hex1 : Exact t1 := fun c hc => by have := hv1' c hc; rw [this.1, this.2]
   refine ⟨?_, hobs⟩
   subst he'
-  refine ⟨rfl, rfl, rfl, hb, hik, hex, ?_, ?_, ?_, ⟨t1, sameKnowledge_of_compute hok hcomp, hex1, hcomp⟩, ?_⟩
+  refine ⟨rfl, rfl, rfl, hb, hik, hex, ?_, ?_, ?_, ⟨t1, sameKnowledge_of_compute hok hex1 hcomp, hex1, hcomp⟩, ?_⟩
   · show t2.n = P.n
-    rw [hok.n hcomp, hn1, hn]
+    rw [hok.n hex1 hcomp, hn1, hn]
   · intro c
     show t2.known c = _
-    rw [hok.known hcomp c]; exact hk1' c
+    rw [hok.known hex1 hcomp c]; exact hk1' c
   · intro c hc
-    have hc1 : t1.known c = true := by rw [← hok.known hcomp c]; exact hc
-    have := hok.vals hcomp c hc1
+    have hc1 : t1.known c = true := by rw [← hok.known hex1 hcomp c]; exact hc
+    have := hok.vals hex1 hcomp c hc1
     show t2.lo c = f c ∧ t2.hi c = f c
     rw [this.1, this.2]; exact hv1' c hc1
   · intro c hc
@@ -239,14 +239,14 @@ theorem step_spec [Zero α] [Neg α] [Sub α] [DecidableEq α] (hok : ComputeOK 
   refine ⟨c, hc, hrev, ?_, ?_, ?_, ?_, ?_⟩
   · subst he'
     refine ⟨hinv.full, hinv.norm, ?_, hinv.budget, hinv.ik, hinv.ex, ?_, ?_, ?_,
-      ⟨_, sameKnowledge_of_compute hok hcomp, hput_exact, hcomp⟩, ?_⟩
+      ⟨_, sameKnowledge_of_compute hok hput_exact hcomp, hput_exact, hcomp⟩, ?_⟩
     · show e.steps + 1 = s.steps + 1
       rw [hinv.steps]
     · show t2.n = P.n
-      rw [hok.n hcomp]; exact hinv.n
+      rw [hok.n hput_exact hcomp]; exact hinv.n
     · intro d
       show t2.known d = _
-      rw [hok.known hcomp d]
+      rw [hok.known hput_exact hcomp d]
       simp only [putValue, Spec.knows, Spec.step]
       by_cases hdc : d = c
       · subst hdc; simp
@@ -255,8 +255,8 @@ theorem step_spec [Zero α] [Neg α] [Sub α] [DecidableEq α] (hok : ComputeOK 
         simp only [Spec.knows] at this
         simp only [hdc, if_false, this, hbe, Bool.false_or]
     · intro d hd
-      have hd1 : (e.table.putValue c (e.full c)).known d = true := by rw [← hok.known hcomp d]; exact hd
-      have := hok.vals hcomp d hd1
+      have hd1 : (e.table.putValue c (e.full c)).known d = true := by rw [← hok.known hput_exact hcomp d]; exact hd
+      have := hok.vals hput_exact hcomp d hd1
       show t2.lo d = s.full d ∧ t2.hi d = s.full d
       rw [this.1, this.2]
       by_cases hdc : d = c
@@ -300,14 +300,14 @@ theorem unstep_spec [Zero α] [Neg α] [Sub α] [DecidableEq α] (hok : ComputeO
   refine ⟨c, hc, hrev, ?_, ?_, ?_, ?_, ?_⟩
   · subst he'
     refine ⟨hinv.full, hinv.norm, ?_, hinv.budget, hinv.ik, hinv.ex, ?_, ?_, ?_,
-      ⟨_, sameKnowledge_of_compute hok hcomp, hclr_exact, hcomp⟩, ?_⟩
+      ⟨_, sameKnowledge_of_compute hok hclr_exact hcomp, hclr_exact, hcomp⟩, ?_⟩
     · show e.steps - 1 = s.steps - 1
       rw [hinv.steps]
     · show t2.n = P.n
-      rw [hok.n hcomp]; exact hinv.n
+      rw [hok.n hclr_exact hcomp]; exact hinv.n
     · intro d
       show t2.known d = _
-      rw [hok.known hcomp d]
+      rw [hok.known hclr_exact hcomp d]
       simp only [clearRow, Spec.knows, Spec.unstep]
       by_cases hdc : d = c
       · subst hdc
@@ -318,8 +318,8 @@ theorem unstep_spec [Zero α] [Neg α] [Sub α] [DecidableEq α] (hok : ComputeO
         simp only [Spec.knows] at this
         simp only [hdc, if_false, this, hbe, Bool.true_and]
     · intro d hd
-      have hd1 : (e.table.clearRow c).known d = true := by rw [← hok.known hcomp d]; exact hd
-      have := hok.vals hcomp d hd1
+      have hd1 : (e.table.clearRow c).known d = true := by rw [← hok.known hclr_exact hcomp d]; exact hd
+      have := hok.vals hclr_exact hcomp d hd1
       show t2.lo d = s.full d ∧ t2.hi d = s.full d
       rw [this.1, this.2]
       by_cases hdc : d = c
@@ -551,9 +551,9 @@ def toyCompute [Zero α] (w : α) (t : Table α) : Except Err (Table α) :=
   .ok { t with lo := fun c => if t.known c then t.lo c else 0, hi := fun c => if t.known c then t.hi c else w }
 
 theorem toyCompute_ok [Zero α] (w : α) : ComputeOK (toyCompute w) where
-  n := by intro t t' h; cases h; rfl
-  known := by intro t t' h c; cases h; rfl
-  vals := by intro t t' h c hc; cases h; simp [hc]
+  n := by intro t t' _ h; cases h; rfl
+  known := by intro t t' _ h c; cases h; rfl
+  vals := by intro t t' _ h c hc; cases h; simp [hc]
 
 theorem toyCompute_knowledgeOnly [Zero α] (w : α) : KnowledgeOnly (toyCompute w) where
   rows := by
